@@ -478,6 +478,57 @@ func runC05Faults(env *Env, rc *RunCtx, sys *Sys) {
 			}
 		}
 	}
+	// the Manager called directly with a relationship that has no subject, at
+	// every position (sampled around the chunk boundaries when the call is
+	// large): the call fails and nothing is stored or deleted
+	if rq.Kind == "mgr-write" || rq.Kind == "mgr-delete" {
+		ts, chunk := rq.Ins, env.chunkI
+		if rq.Kind == "mgr-delete" {
+			ts, chunk = rq.Del, env.chunkD
+		}
+		var mps []int
+		if len(ts) <= 12 {
+			for p := range ts {
+				mps = append(mps, p)
+			}
+		} else {
+			mps = []int{0, len(ts) / 2, len(ts) - 1}
+			if chunk > 0 && len(ts) > chunk {
+				mps = append(mps, chunk-1, chunk, chunk+1, len(ts)-2)
+			}
+		}
+		for _, p := range mps {
+			if p < 0 || p >= len(ts) {
+				continue
+			}
+			env.Restore()
+			its, err := env.Internal(ts...)
+			if err != nil {
+				env.T.Fatalf("harness: map: %v", err)
+			}
+			cp := *its[p]
+			cp.Subject = nil
+			its[p] = &cp
+			if rq.Kind == "mgr-write" {
+				err = env.Reg.RelationTupleManager().WriteRelationTuples(env.Ctx, its...)
+			} else {
+				err = env.Reg.RelationTupleManager().DeleteRelationTuples(env.Ctx, its...)
+			}
+			rc.Rec.Execs++
+			rc.Count("invalid_positions", 1)
+			rc.Count("invalid_positions_manager", 1)
+			sa, _ := env.StateHash()
+			ex := map[string]any{"invalid": map[string]any{"position": p, "of": len(ts), "what": "nil-subject (Manager call)"}, "error": fmt.Sprint(err)}
+			if err == nil {
+				rc.Violate("invalid-accepted", "nil-subject/"+rq.Kind, fmt.Sprintf("Manager call with a subject-less relationship at position %d/%d returned no error", p, len(ts)), w(ex), -1, nil)
+				return
+			}
+			if sa != s0 {
+				rc.Violate("partial-apply", "invalid/nil-subject/"+rq.Kind, fmt.Sprintf("Manager call with a subject-less relationship at position %d/%d failed (%v) but changed the stored state", p, len(ts), err), w(ex), -1, nil)
+				return
+			}
+		}
+	}
 	if rc.WantSample {
 		rc.Rec.Sample = w(map[string]any{"statements_fault_free": stmtSummary(log), "fault_positions": N, "invalid_positions": ps})
 	}
